@@ -5,6 +5,7 @@ import (
 	"fmt"
 	"net/url"
 	"reflect"
+	"strconv"
 	"strings"
 
 	"gitee.com/xuesongtao/protoc-go-valid/valid"
@@ -25,6 +26,10 @@ type ScalarCase struct {
 	RePats  map[string]string `json:"repats,omitempty"`
 	Others  [][2]string       `json:"others,omitempty"` // url: other parameters (name, value); map: other entries
 	Pos     int               `json:"pos,omitempty"`    // url: position of our parameter among the others
+	// listmap: one flag per list element, true = that element lacks our key
+	// (nil = the list holds the same map twice, present or missing per Missing)
+	ListMissing []bool `json:"list_missing,omitempty"`
+	noDup       bool
 }
 
 // Carriers lists every way a scalar can be presented.
@@ -128,7 +133,17 @@ func (c *ScalarCase) prepare() func() error {
 			}
 		}
 		var src interface{} = m.Interface()
-		if c.Carrier == "listmap" {
+		if c.Carrier == "listmap" && len(c.ListMissing) > 0 {
+			l := reflect.MakeSlice(reflect.SliceOf(m.Type()), len(c.ListMissing), len(c.ListMissing))
+			for i, miss := range c.ListMissing {
+				mi := reflect.MakeMap(m.Type())
+				if !miss {
+					mi.SetMapIndex(reflect.ValueOf(scalarKey), v)
+				}
+				l.Index(i).Set(mi)
+			}
+			src = l.Interface()
+		} else if c.Carrier == "listmap" {
 			l := reflect.MakeSlice(reflect.SliceOf(m.Type()), 2, 2)
 			l.Index(0).Set(m)
 			l.Index(1).Set(m)
@@ -172,6 +187,25 @@ func (c *ScalarCase) run() (errText string, isNil bool, panicked interface{}) {
 
 // expect predicts the clauses for our value from the documentation alone.
 func (c *ScalarCase) expect() *model.Result {
+	if c.Carrier == "listmap" && len(c.ListMissing) > 0 {
+		// every list element is judged on its own
+		out := &model.Result{GroupObjs: map[string]int{}}
+		for i, miss := range c.ListMissing {
+			cc := *c
+			cc.ListMissing, cc.Missing, cc.noDup = nil, miss, true
+			r := cc.expect()
+			for _, it := range r.Seq {
+				e := *it.C
+				e.Path = strings.Replace(e.Path, "[0]map[", "["+strconv.Itoa(i)+"]map[", 1)
+				out.Seq = append(out.Seq, model.Item{C: &e})
+			}
+			out.Violations += r.Violations
+			out.Satisfied += r.Satisfied
+			out.NonFirstViol = out.NonFirstViol || r.NonFirstViol
+			out.Excluded = append(out.Excluded, r.Excluded...)
+		}
+		return out
+	}
 	res := &model.Result{GroupObjs: map[string]int{}}
 	v := c.value()
 	path := c.path()
@@ -284,7 +318,7 @@ func (c *ScalarCase) expect() *model.Result {
 		}
 		first = false
 	}
-	if c.Carrier == "listmap" {
+	if c.Carrier == "listmap" && !c.noDup {
 		n := len(res.Seq)
 		for i := 0; i < n; i++ {
 			e := *res.Seq[i].C
